@@ -148,8 +148,11 @@ class Parenthesis(TypedExpression):
                 inner = inner + suffix + indentation
             return self.add_trivia(f"({inner})", indent, inline)
 
-        value_str = f"({self.value.rebuild(indent=indent, inline=True)})"
-        return self.add_trivia(value_str, indent, inline)
+        inner = self.value.rebuild(indent=indent, inline=True)
+        if inner.startswith("#"):
+            # Same as above for a parenthesis written on one line.
+            inner = "\n" + self.value.rebuild(indent=indent + 2, inline=False)
+        return self.add_trivia(f"({inner})", indent, inline)
 
 
 __all__ = ["Parenthesis"]
